@@ -36,13 +36,15 @@ def schemes(seed, tier):
                       '[] s = "2" -> 2 [] s = "3" -> 3 [] s = "7" -> 7 [] s = "-1" -> -1]',
         "MC_ExtraStrs": '{"zz", ""}',
         "MC_ExtraInts": "{7, -1}",
+        "MC_Canon": '[i \\in {0, 1, 2, 3} |-> CASE i = 0 -> "0" [] i = 1 -> "1" [] i = 2 -> "2" '
+                    '[] i = 3 -> "3"]',
     }
     cfg = ["CONSTANTS", "  N = %d" % N, "  AliasPool <- MC_AliasPool", "  SvidPool <- MC_SvidPool",
            "  EidPool <- MC_EidPool", "  Numeric <- MC_Numeric", "  ExtraStrs <- MC_ExtraStrs",
-           "  ExtraInts <- MC_ExtraInts", "  SimMode = %s", "  Sample = %d" % (3 if tier == "quick" else 8),
+           "  ExtraInts <- MC_ExtraInts", "  Canon <- MC_Canon", "  SimMode = %s", "  Sample = %d" % (3 if tier == "quick" else 8),
            "SPECIFICATION Spec", "CHECK_DEADLOCK FALSE",
            "INVARIANT ThmAliasAndEidResolve", "INVARIANT ThmRewriteIdempotent",
-           "INVARIANT ThmDtIdAndValueAgree"]
+           "INVARIANT ThmDtIdAndValueAgree", "INVARIANT ThmSpelledEidAgrees"]
     stats = {"states": 0, "generated": 0}
     # the two spec theorems are checked on ALL schemes (no emission, fast)
     run = TLCRun("eref.all", "ElementRef", defs,
@@ -64,7 +66,7 @@ def schemes(seed, tier):
     out = {}
     try:
         for rec in run:
-            out[json.dumps([rec["alias"], rec["svid"], rec["eid"]])] = rec
+            out[json.dumps([rec["alias"], rec["svid"], rec["eid"], sorted(rec["ins"])])] = rec
         stats["generated"] += run.generated
         err = run.error
     finally:
@@ -142,56 +144,89 @@ def run_check(tier, seed, t0):
     if err:
         print("MACHINERY-ERROR: %s" % err, file=sys.stderr)
         return 2
-    bases = []
-    for scn, side in ((scenario("mr_x_cat", [mr("A", N), cat("B", 3, miss=[2])]), "rows"),
-                      (scenario("cat_x_mr", [cat("A", 3), mr("B", N)]), "cols"),
-                      (scenario("casub_x_cacat", [caitems("A", N), cacat("A", 3)]), "rows")):
-        s, rec = base_record(scn, seed)
-        if rec is None:
-            print("MACHINERY-ERROR: no base record for %s" % scn["name"], file=sys.stderr)
-            return 2
-        bases.append((s, rec, side))
+    base_cache = {}
+
+    def get_base(kind, side, ins):
+        """(scenario, one spec-emitted state) for an MR / CA dimension on `side`; the MR items
+        in `ins` are server-inserted (derived from the base items, anchored top / bottom)"""
+        key = (kind, side, ins)
+        if key not in base_cache:
+            der = {k: {"of": [b for b in range(1, N + 1) if b not in ins],
+                       "at": ("top", "bottom")[i % 2]} for i, k in enumerate(ins)}
+            tag = ".ins" + "".join(map(str, ins)) if ins else ""
+            if kind == "ca":
+                scn = scenario("casub_x_cacat", [caitems("A", N), cacat("A", 3)])
+            elif side == "rows":
+                scn = scenario("mr_x_cat" + tag, [mr("A", N, derived=der or None), cat("B", 3, miss=[2])])
+            else:
+                scn = scenario("cat_x_mr" + tag, [cat("A", 3), mr("B", N, derived=der or None)])
+            base_cache[key] = base_record(scn, seed)
+        return base_cache[key]
+
     mismatches = []
     feats = {}
     evals = 0
     n_pairs = 0
     sample = None
+    kinds = (("mr", "rows"), ("mr", "cols"), ("ca", "rows"))
     for si, sch in enumerate(schs):
-        scn0, rec, side = bases[si % len(bases)]
+        kind, side = kinds[si % len(kinds)]
+        ins = tuple(sorted(sch["ins"])) if kind == "mr" else ()
+        scn0, rec = get_base(kind, side, ins)
+        if rec is None:
+            print("MACHINERY-ERROR: no base record for %s" % scn0["name"], file=sys.stderr)
+            return 2
         scn = with_scheme(scn0, side, sch)
         resp = envelope.build_response(scn, rec, configs.DEFAULT)
+        # the same response with the base items of the derived array flagged derived
+        # themselves (only meaningful under payload order: hide / rename slots)
+        resp_bd = None
+        if ins:
+            scn_bd = with_scheme(scn0, side, sch)
+            ri, ci = envelope.slice_dim_indexes(scn_bd["dims"])
+            scn_bd["dims"][ri if side == "rows" else ci]["base_derived"] = True
+            resp_bd = envelope.build_response(scn_bd, rec, configs.DEFAULT)
         memo = {}
 
-        def out_for(slot, value, present=True):
-            key = (slot, json.dumps(value), present)
+        def out_for(slot, value, present=True, bd=False):
+            key = (slot, json.dumps(value), present, bd)
             if key not in memo:
                 try:
-                    memo[key] = ("ok", observe(resp, transforms_for(slot, side, value, present)))
+                    memo[key] = ("ok", observe(resp_bd if bd else resp,
+                                               transforms_for(slot, side, value, present)))
                 except Exception as e:  # noqa
                     memo[key] = ("raise", repr(e))
             return memo[key]
 
         for ref in sch["refs"]:
-            v, item, rule = ref["v"], ref["item"], ref["rule"]
+            v = ref["v"]
+            item, rule = (ref["item"], ref["rule"]) if kind == "mr" else (ref["plain"], ref["plainrule"])
             value = py_value(v)
-            for slot in SLOTS:
+            for slot, bd in [(sl, False) for sl in SLOTS] + (
+                    [("hide", True), ("rename", True)] if resp_bd is not None else []):
                 if slot in ("hide", "rename"):
                     if v["t"] != "s":
                         continue      # JSON object keys are strings
-                got = out_for(slot, value)
+                got = out_for(slot, value, bd=bd)
                 if item:
-                    want = out_for(slot, sch["alias"][item - 1])
+                    want = out_for(slot, sch["alias"][item - 1], bd=bd)
                 else:
-                    want = out_for(slot, None, present=False)
+                    want = out_for(slot, None, present=False, bd=bd)
                 evals += 1
                 n_pairs += 1
                 feats["rule%d" % rule] = feats.get("rule%d" % rule, 0) + 1
                 feats["slot_" + slot] = feats.get("slot_" + slot, 0) + 1
+                if ins:
+                    feats["mr_view_insertions"] = feats.get("mr_view_insertions", 0) + 1
                 if got != want:
-                    what = ("%s=%r in slot %s (%s dimension, aliases %s, sub-variable ids %s, element "
-                            "ids %s): denotes %s by rule %d but the output %s" %
-                            (v["t"], value, slot, side, sch["alias"], sch["svid"], sch["eid"],
-                             ("item %d" % item) if item else "nothing", rule,
+                    what = ("%s=%r in slot %s (%s dimension%s, aliases %s, sub-variable ids %s, element "
+                            "ids %s): denotes %s by rule %s but the output %s" %
+                            (v["t"], value, slot, side,
+                             (" with server-inserted items %s%s" % (list(ins), ", base items flagged "
+                                                                    "derived" if bd else "")) if ins else "",
+                             sch["alias"], sch["svid"], sch["eid"],
+                             ("item %d" % item) if item else "nothing",
+                             "2b" if rule == 7 else rule,
                              "raises %s" % got[1] if got[0] == "raise" else
                              "differs from the output of the alias spelling" if item else
                              "differs from the output without the reference"))
@@ -199,8 +234,9 @@ def run_check(tier, seed, t0):
                                                 tags={"slot": slot, "rule": rule, "vtype": v["t"],
                                                       "resolves": bool(item),
                                                       "raises": got[0] == "raise",
-                                                      "side": side}),
-                                       {"scheme": {k: sch[k] for k in ("alias", "svid", "eid")},
+                                                      "side": side, "mr_ins": bool(ins),
+                                                      "base_derived": bd}),
+                                       {"scheme": {k: sch[k] for k in ("alias", "svid", "eid", "ins")},
                                         "ref": ref, "slot": slot, "scn": scn0["name"]}))
         if sample is None:
             sample = {"alias": sch["alias"], "svid": sch["svid"], "eid": sch["eid"],
@@ -263,8 +299,9 @@ def run_check(tier, seed, t0):
     }]
     return runner.finish(
         prop_id, tier, seed, "model_checking", results, t0,
-        rule="ElementRef.tla: the two resolution theorems checked by TLC on all 13,824 id "
-             "schemes over the adversarial alphabets; a seeded sample of schemes emitted with "
+        rule="ElementRef.tla: the resolution theorems checked by TLC on all id schemes "
+             "(13,824 identifier assignments x 7 sets of server-inserted items) over the "
+             "adversarial alphabets; a seeded sample of schemes emitted with "
              "the item every candidate reference (aliases, sub-variable ids, element ids as int "
              "and string, positions, stale, empty, negative, null) denotes; for MR rows, MR "
              "columns and CA items x slots {hide, rename, explicit order, fixed top, fixed "
@@ -272,5 +309,5 @@ def run_check(tier, seed, t0):
              "compared with its output with the alias of the denoted item (or without the "
              "reference)",
         assumptions=["TLC", "payloads are spec-emitted states of the same scenarios"],
-        feature_floor=("rule1", "rule2", "rule3", "rule4", "rule5", "rule6", "slot_hide",
+        feature_floor=("rule1", "rule2", "rule3", "rule4", "rule5", "rule6", "rule7", "mr_view_insertions", "slot_hide",
                        "slot_explicit", "slot_opposing_element", "datetime"))
